@@ -257,7 +257,7 @@ def equalities(ctx, v, bb):
     uf = UF()
     cfg = ctx.cfgof(v)
     for g in ctx.guards(v):
-        if g.bb == bb or not cfg.dominates(g.bb, bb):
+        if g.bb == bb or not ctx.holds_at(v, g.bb, bb):
             continue
         c = g.cond
         if c.tag == 'binop' and ((c[1] == 'Ne' and g.reject_when_true()) or (c[1] == 'Eq' and g.reject_when_false())):
